@@ -35,7 +35,7 @@ let run (lines : string list) =
       a := a'; st := p;
       (match p with
        | Some p -> Printf.printf "new %s%s%s ## new OK%s\n" (stat_name s) (obs p) (ledger !a) (obs p)
-       | None -> Printf.printf "new %s |%s\n" (stat_name s) (ledger !a))
+       | None -> Printf.printf "new %s |%s ## new %s |\n" (stat_name s) (ledger !a) (stat_name s))
     end else
       match tok, !st with
       | [], _ -> ()
